@@ -193,6 +193,9 @@ func (p *Packet) unpackWithCompression(r io.Reader, threshold int) error {
 		if err != nil {
 			return err
 		}
+		if int64(DataLength) < n3 {
+			return fmt.Errorf("compressed packet error: size of %d is smaller than the packet id", DataLength)
+		}
 		DataLength -= VarInt(n3)
 	} else {
 		n3, err := PacketID.ReadFrom(r)
